@@ -40,6 +40,20 @@ nn+2 CANCELED):
                      the objects hold is logged as `seen`.  A closing manager no
                      longer takes notifications (its callback returns at once),
                      so the truth stops there as well.
+                     A message is one entry [entity, code] or a BULK
+                     [[entity, code], ...]: one pubsub message which carries the
+                     entries of several tasks (task apis; the entries of a pilot
+                     bulk are sent one per message: PilotManager._state_sub_cb
+                     leaves the message after its first pilot).  Entries may
+                     contradict: another final state for an entity which is
+                     final already (CANCELED seen, then DONE / FAILED: the
+                     execution won the race).  Such an entity may hold any of the
+                     final states notified (logged as `alt` with the Return).
+                     The pubsub listener is modelled as ru.zmq.Subscriber does
+                     it: an exception which leaves the subscriber callback is
+                     logged (counted) and the listener goes on - the REST OF
+                     THAT MESSAGE IS LOST, every entry of it still counts as
+                     notified.
 '''
 
 import threading as mt
@@ -193,6 +207,7 @@ class WaitRun(object):
         if self.api in ('task', 'tmgr'): mgr._tasks  = things
         else                           : mgr._pilots = things
         self.truth = list(start)
+        self.alt   = [[] for _ in start]
         if self.mode == 'notify':
             self.deliver(self.case['notes0'])
         if self.case['closing0']:
@@ -241,23 +256,37 @@ class WaitRun(object):
         return p
 
     # --------------------------------------------------------------------------
-    def deliver(self, notes):
-        '''one state notification per message through the real subscriber
-           callback of the manager; the truth moves to the furthest state notified'''
+    def deliver(self, msgs):
+        '''state notifications through the real subscriber callback of the
+           manager, the way the pubsub listener thread calls it; the truth moves
+           to the furthest state notified'''
         nn   = nn_of(self.api)
         kind = 'task' if self.api in ('task', 'tmgr') else 'pilot'
-        for ent, code in notes:
+        for m in msgs:
             if self.term.is_set():
                 break                       # a closing manager takes no more updates
-            t = self.truth[ent - 1]
-            if t < nn and min(code, nn) > t:
-                self.truth[ent - 1] = code
-            msg = {'cmd': 'update', 'arg': {'type': kind, 'uid': self.uids[ent - 1],
-                                            'state': name_of(self.api, code)}}
-            try:
-                self.mgr._state_sub_cb(rpc.STATE_PUBSUB, msg)
-            except Exception as e:
-                self.notify_raised.append(repr(e)[:200])
+            bulk    = bool(m) and isinstance(m[0], list)
+            entries = m if bulk else [m]
+            things  = []
+            for ent, code in entries:
+                t = self.truth[ent - 1]
+                if t < nn:
+                    if min(code, nn) > t:
+                        self.truth[ent - 1] = code
+                elif code >= nn and code != t and code not in self.alt[ent - 1]:
+                    self.alt[ent - 1].append(code)         # contradicting final state
+                things.append({'type': kind, 'uid': self.uids[ent - 1],
+                               'state': name_of(self.api, code)})
+            if not bulk           : args = [things[0]]
+            elif kind == 'pilot'  : args = things           # one pilot per message
+            else                  : args = [things]
+            for arg in args:
+                try:
+                    self.mgr._state_sub_cb(rpc.STATE_PUBSUB, {'cmd': 'update', 'arg': arg})
+                except Exception as e:
+                    # ru.zmq.Subscriber._listener: log.exception('callback error'),
+                    # the listener lives on, the rest of this message is gone
+                    self.notify_raised.append(repr(e)[:200])
 
     # --------------------------------------------------------------------------
     def seen(self):
@@ -326,6 +355,7 @@ class WaitRun(object):
             elif isinstance(ret, list) : shape, val = 'list',   [code_of(self.api, r) for r in ret]
             else                       : shape, val = 'other',  []
             self.log('Return', shape=shape, val=val, st=self.codes(), seen=self.seen(),
+                     alt=[sorted(a) for a in self.alt],
                      closing=self.term.is_set())
         except Unwind:
             pass
@@ -369,22 +399,35 @@ def stale_codes(nn, code):
     return list(range(min(code, nn)))
 
 
-def to_notify(case, rng=None, policy='random', stale=None):
+def other_final(nn, code, salt=0):
+    '''a final state which contradicts the final state `code`'''
+    alts = {0: [1, 2], 1: [0, 2], 2: [0, 0, 1]}[code - nn]     # CANCELED: mostly DONE
+    return nn + alts[salt % len(alts)]
+
+
+def to_notify(case, rng=None, policy='random', stale=None, odd=None, bulk=False):
     '''the same call and trajectory, but applied through notifications: per
        entity and tick the forward step (if any), plus
          policy 'none'   : nothing else
                 'echo'   : after every forward step the previous state again
                            (reordered delivery), and after a final state the
                            last non-final one
-                'random' : seeded duplicates / stale / post-final notifications,
-                           in random order after the forward step
+                'random' : seeded duplicates / stale / post-final non-final
+                           notifications and contradicting final states for
+                           entities which are final already, the entities of a
+                           tick in random order
          stale  (optional) per tick vectors: a stale state which arrives last in
-                that tick for the entity, or -1 (used for TLC behaviours)'''
+                that tick for the entity, or -1 (used for TLC behaviours)
+         odd    (optional) per tick (index 0: before the call) None or
+                [b, kind, k]: one odd entry for entity b ('contra': another
+                final state, 'stale': an older state, 'dup': the same state
+                again) placed behind the entries of the entities <= k
+         bulk   all entries of a tick travel in ONE message (task apis)'''
     nn  = nn_of(case['api'])
     ne  = case['ne']
 
-    def tick_notes(prev, new, k):
-        out = []
+    def tick_msgs(prev, new, k, o=None):
+        per = []
         for e in range(ne):
             mine = []
             if new[e] != prev[e]:
@@ -398,28 +441,97 @@ def to_notify(case, rng=None, policy='random', stale=None):
                     x = rng.random()
                     if   x < 0.3 or not old: extra.append([e + 1, new[e]])          # duplicate
                     else                   : extra.append([e + 1, rng.choice(old)])  # stale
+                if prev[e] >= nn and rng.random() < 0.4:
+                    extra.append([e + 1, other_final(nn, prev[e], rng.randrange(2))])  # raced
+                    rng.shuffle(extra)
                 if rng.random() < 0.3:
-                    mine = extra + mine          # stale ones may also come first
+                    mine = extra + mine          # odd ones may also come first
                 else:
                     mine = mine + extra
             if stale is not None and stale[k][e] >= 0 and stale[k][e] != new[e]:
                 mine.append([e + 1, stale[k][e]])
-            out += mine
+            per.append(mine)
+        order = list(range(ne))
+        if policy == 'random':
+            rng.shuffle(order)
+        out = []
+        if o and o[2] == 0:
+            out.append(odd_entry(o, prev, new, k))
+        for e in order:
+            out += per[e]
+            if o and o[2] == e + 1:
+                out.append(odd_entry(o, prev, new, k))
+        if bulk and out:
+            return [out]                          # one message
         return out
 
+    def odd_entry(o, prev, new, k):
+        b, kd = o[0], o[1]
+        if   kd == 'contra': return [b, other_final(nn, prev[b - 1], k) if prev[b - 1] >= nn else new[b - 1]]
+        elif kd == 'stale' : return [b, max(min(prev[b - 1], nn) - 1, 0)]
+        else               : return [b, new[b - 1]]
+
+    # before the call: the entities come from NEW to st0 (an odd entry of the
+    # call instant refers to st0 itself)
     zero   = [0] * ne
-    notes0 = tick_notes(zero, case['st0'], 0) if stale is None else \
-             [[e + 1, case['st0'][e]] for e in range(ne) if case['st0'][e] != 0]
-    if stale is not None:
-        st0s = stale[0]
-        notes0 += [[e + 1, st0s[e]] for e in range(ne) if st0s[e] >= 0 and st0s[e] != case['st0'][e]]
+    notes0 = tick_msgs(zero, case['st0'], 0)
+    if odd is not None and odd[0]:
+        e = odd_entry(odd[0], case['st0'], case['st0'], 0)
+        notes0 = notes0 + ([[e]] if bulk else [e])
     notes, prev = [], case['st0']
     for k, new in enumerate(case['traj']):
-        notes.append(tick_notes(prev, new, k + 1))
+        notes.append(tick_msgs(prev, new, k + 1,
+                               odd[k + 1] if odd is not None and k + 1 < len(odd) else None))
         prev = new
     c = dict(case)
     c['mode'], c['notes0'], c['notes'] = 'notify', notes0, notes
     return c
+
+
+def race_case(rng):
+    '''task calls in which the cancellation of one task races its execution:
+       the task is CANCELED early, later bulks carry DONE / FAILED (or a stale
+       state, or a duplicate) for it before / between / behind the entries
+       which bring the other tasks to their final states'''
+    api = rng.choice(['tmgr', 'tmgr', 'task'])
+    nn  = nn_of(api)
+    ne  = rng.randint(2, 4)
+    b   = rng.randint(1, ne)                       # the raced task
+    if api == 'task':
+        kind, awaited = 'scalar', [rng.choice([e for e in range(1, ne + 1) if e != b])]
+    else:
+        kind = rng.choice(['list', 'all', 'all', 'scalar'])
+        if   kind == 'all'   : awaited = list(range(1, ne + 1))
+        elif kind == 'scalar': awaited = [rng.choice([e for e in range(1, ne + 1) if e != b])]
+        else                 : awaited = rng.sample(range(1, ne + 1), rng.randint(2, ne))
+    x = rng.random()
+    if   x < 0.5: R, rform = [], 'none'
+    elif x < 0.8: R, rform = [nn], rng.choice(['scalar', 'list'])
+    else        : R, rform = [rng.randrange(nn + 3)], 'list'
+    start = rng.randrange(nn)
+    st    = [start if rng.random() < 0.7 else rng.randrange(nn) for _ in range(ne)]
+    n     = rng.randint(2, 5)
+    tc    = rng.randint(0, 1)                      # tick at which b is CANCELED
+    if tc == 0:
+        st[b - 1] = nn + 2
+    st0, traj, odd = list(st), [], [None]
+    for k in range(1, n + 1):
+        for e in range(ne):
+            if e == b - 1:
+                if k == tc:
+                    st[e] = nn + 2
+            elif st[e] < nn and (k == n or rng.random() < 0.5):
+                st[e] = nn + rng.choice([0, 0, 0, 1, 2]) if (k == n or rng.random() < 0.6) \
+                        else rng.randrange(st[e], nn)
+        traj.append(list(st))
+        if k > tc and rng.random() < 0.7:
+            odd.append([b, rng.choice(['contra', 'contra', 'contra', 'stale', 'dup']),
+                        rng.randint(0, ne)])
+        else:
+            odd.append(None)
+    timeout = rng.choice([0, 0, n + 2])
+    case = make_case(api, ne, kind, awaited, rform, R, timeout, st0, traj)
+    return to_notify(case, rng, policy=rng.choice(['none', 'none', 'random']), odd=odd, bulk=True)
 
 
 def embedding(api, nn_model, rng):
